@@ -41,8 +41,8 @@ CONSTANTS N,            \* threads including main (2..4)
           Rule,         \* "perthread" | "single"
           Emit          \* TRUE: print one JSON line per finished behaviour (for the conformance replay)
 
-VARIABLES prog, bi, path, ex, results, scheds, resB, phase
-dvars == <<prog, bi, path, ex, results, scheds, resB, phase>>
+VARIABLES prog, refo, bi, path, ex, results, scheds, resB, phase
+dvars == <<prog, refo, bi, path, ex, results, scheds, resB, phase>>
 
 Thr == 1..N
 NoOp == [op |-> "none", o |-> "none"]
@@ -335,6 +335,7 @@ NOps == LET RECURSIVE Sum(_) Sum(t) == IF t > N THEN 0 ELSE Len(Code(t)) + Sum(t
 
 (* ---------------------------------------------------------- the machine *)
 Init == /\ prog \in Progs
+        /\ refo = RefOutcomes                  \* evaluated once per program
         /\ bi = 1
         /\ path = NewPath(1000, BoundOf(1), TRUE)
         /\ ex = Ex0
@@ -351,15 +352,15 @@ Step ==
   /\ phase = "run"
   /\ LET e1 == Arrive(ex, ex.active)
          r  == Schedule(path, e1)
-     IN IF r.err # "" THEN /\ phase' = "panic" /\ UNCHANGED <<prog, bi, path, ex, results, scheds, resB>>
+     IN IF r.err # "" THEN /\ phase' = "panic" /\ UNCHANGED <<prog, refo, bi, path, ex, results, scheds, resB>>
         ELSE IF r.next # 0
         THEN /\ ex' = Perform(r.e, r.next) /\ path' = r.p
-             /\ UNCHANGED <<prog, bi, results, scheds, resB, phase>>
+             /\ UNCHANGED <<prog, refo, bi, results, scheds, resB, phase>>
         ELSE LET dead == \E t \in Thr : r.e.st[t] # "terminated"
                  out  == IF dead THEN [end |-> "deadlock", regs |-> <<>>] ELSE [end |-> "ok", regs |-> r.e.regs]
                  res1 == results \cup {out}
                  s    == StepPath(r.p)
-             IN /\ UNCHANGED prog
+             IN /\ UNCHANGED <<prog, refo>>
                 /\ IF dead \/ ~s.ok                               \* a deadlock panics: the run is over
                    THEN /\ resB' = Append(resB, [res |-> res1, iters |-> Cardinality(scheds) + 1,
                                                  repeat |-> r.e.sched \in scheds, scheds |-> scheds \cup {r.e.sched},
@@ -381,17 +382,17 @@ HasDead(S) == \E o \in S : o.end = "deadlock"
 \* a run that hits a deadlock stops there: it is complete if it reports the deadlock
 Covers(S, R) == IF HasDead(R) THEN HasDead(S) \/ S = R ELSE S = R
 IsUnbounded(i) == BoundList[i] = 99
-Complete == phase = "done" => \A i \in 1..Len(resB) : IsUnbounded(i) => /\ resB[i].res \subseteq RefOutcomes
-                                                                         /\ Covers(resB[i].res, RefOutcomes)
-Sound == phase = "done" => \A i \in 1..Len(resB) : resB[i].res \subseteq RefOutcomes
+Complete == phase = "done" => \A i \in 1..Len(resB) : IsUnbounded(i) => /\ resB[i].res \subseteq refo
+                                                                         /\ Covers(resB[i].res, refo)
+Sound == phase = "done" => \A i \in 1..Len(resB) : resB[i].res \subseteq refo
 \* 99 (no bound) is the largest bound
 Monotone == phase = "done" => \A i, j \in 1..Len(resB) :
                BoundList[i] <= BoundList[j] =>
                  (HasDead(resB[i].res) \/ HasDead(resB[j].res) \/ resB[i].res \subseteq resB[j].res)
 Saturates == phase = "done" => \A i \in 1..Len(resB) :
-               (~IsUnbounded(i) /\ BoundList[i] >= NOps) => Covers(resB[i].res, RefOutcomes)
+               (~IsUnbounded(i) /\ BoundList[i] >= NOps) => Covers(resB[i].res, refo)
 
 Report == (Emit /\ phase = "done") =>
-            PrintT(<<"DPOR", ToJson([prog |-> prog, ref |-> RefOutcomes, runs |-> [i \in 1..Len(resB) |->
+            PrintT(<<"DPOR", ToJson([prog |-> prog, ref |-> refo, runs |-> [i \in 1..Len(resB) |->
                         [bound |-> BoundList[i], iters |-> resB[i].iters, res |-> resB[i].res, scheds |-> resB[i].scheds, deadsched |-> resB[i].deadsched]]])>>)
 =============================================================================
